@@ -1974,3 +1974,78 @@ pub mod partialfx {
         }
     }
 }
+
+// ---------------------------------------------------------------- R-GUARD.open
+pub mod openfx {
+    pub struct Header { pub capacity: u64 }
+    pub struct FV { pub header: Header, pub path: std::path::PathBuf }
+    impl FV {
+        pub fn capacity(&self) -> u64 { self.header.capacity }
+        fn load(path: &std::path::Path) -> Result<FV, String> {
+            let bytes = std::fs::read(path).map_err(|e| e.to_string())?;
+            if bytes.len() < 8 { return Err("short".into()); }
+            let mut c = [0u8; 8];
+            c.copy_from_slice(&bytes[..8]);
+            Ok(FV { header: Header { capacity: u64::from_le_bytes(c) }, path: path.to_path_buf() })
+        }
+        pub fn ok_open(path: &std::path::Path) -> Result<FV, String> {
+            let v = FV::load(path)?;
+            let file_len = std::fs::metadata(&v.path).map_err(|e| e.to_string())?.len();
+            let need = v.capacity().checked_mul(4).and_then(|b| b.checked_add(8)).ok_or("overflow")?;
+            if file_len < need { return Err("cut short".into()); }
+            Ok(v)
+        }
+        fn check_len(&self) -> Result<(), String> {
+            let file_len = std::fs::metadata(&self.path).map_err(|e| e.to_string())?.len();
+            let need = self.capacity().checked_mul(4).and_then(|b| b.checked_add(8)).ok_or("overflow")?;
+            if file_len < need { return Err("cut short".into()); }
+            Ok(())
+        }
+        pub fn ok_open_helper(path: &std::path::Path) -> Result<FV, String> {
+            let v = FV::load(path)?;
+            v.check_len()?;
+            Ok(v)
+        }
+        pub fn bad_open(path: &std::path::Path) -> Result<FV, String> {
+            let v = FV::load(path)?;
+            Ok(v)
+        }
+        pub fn bad_open_ignored(path: &std::path::Path) -> Result<FV, String> {
+            let v = FV::load(path)?;
+            let _ = v.check_len();
+            Ok(v)
+        }
+    }
+}
+
+// ---------------------------------------------------------------- R-FLOW (save / load carry the field)
+pub mod flowfx {
+    use std::io::{Read, Write};
+    pub struct St { pub content: Vec<u8>, pub index: Vec<u8> }
+    impl St {
+        fn append_content(&mut self, bytes: &[u8]) { self.content.extend_from_slice(bytes); }
+        pub fn ok_load<R: Read>(r: &mut R, n: usize) -> std::io::Result<St> {
+            let mut st = St { content: Vec::new(), index: Vec::new() };
+            let mut buf = vec![0u8; n];
+            r.read_exact(&mut buf)?;
+            st.content.extend_from_slice(&buf);
+            Ok(st)
+        }
+        pub fn ok_load_helper<R: Read>(r: &mut R, n: usize) -> std::io::Result<St> {
+            let mut st = St { content: Vec::new(), index: Vec::new() };
+            let mut buf = vec![0u8; n];
+            r.read_exact(&mut buf)?;
+            st.append_content(&buf);
+            Ok(st)
+        }
+        pub fn bad_load<R: Read>(r: &mut R, n: usize) -> std::io::Result<St> {
+            let mut st = St { content: Vec::new(), index: Vec::new() };
+            let mut buf = vec![0u8; n];
+            r.read_exact(&mut buf)?;
+            st.index.push(buf.len() as u8);
+            Ok(st)
+        }
+        pub fn ok_save<W: Write>(&self, w: &mut W) -> std::io::Result<()> { w.write_all(&self.content) }
+        pub fn bad_save<W: Write>(&self, w: &mut W) -> std::io::Result<()> { w.write_all(&(self.content.len() as u64).to_le_bytes()) }
+    }
+}
